@@ -2,21 +2,24 @@ import PqModel.Crc
 
 /-! # Page loading paths of `FilePages` (file.go) — which of them compare checksums
 
-MIRROR of the unchanged code: `readPage` (file.go:1447-1479) reads `CompressedPageSize` bytes and
-compares `crc32.ChecksumIEEE` with `header.CRC` **iff `header.CRC != 0`**; the unencrypted branch of
-`readDictionary` (file.go:1354-1366) reads the bytes with `io.ReadFull` and compares nothing.
-Which access path ends in which loader:
+MIRROR of the code as it stands (after `5000be7 fix: verify the checksum of a dictionary page that is
+loaded lazily`): `readPage` (file.go:1448-1480) reads `CompressedPageSize` bytes and compares
+`crc32.ChecksumIEEE` with `header.CRC` **iff `header.CRC != 0`**; the unencrypted branch of
+`readDictionary` (file.go:1354-1367) now loads the body through `readPage` as well. Before the fix it
+read the bytes with `io.ReadFull` and compared nothing (finding F4): that as-is mirror is kept as
+`beforeFix`, the negation theorems about it carry `_before_fix` names in `Props/C13.lean`.
+Which access path ends where:
 
 * `sequential`        `ReadPage` loop from the chunk start, every page type incl. the dictionary page
                       met in sequence → `readPage` (file.go:1238)
-* `afterSeek`         `SeekToRow` repositions the section reader (file.go:1550-1636); the next
+* `afterSeek`         `SeekToRow` repositions the section reader (file.go:1551-1637); the next
                       `ReadPage` loads the target data page → `readPage`
 * `lazyDictionary`    a dictionary-encoded data page is decoded while `f.dictionary == nil` (the
                       dictionary page was jumped over by a seek) → `readDictionary`
-                      (file.go:1388-1391, 1400-1406)
-* `readDictionaryAPI` `FilePages.ReadDictionary()` (file.go:1159-1166) → `readDictionary`
+                      (file.go:1389-1392, 1401-1407) → `readPage` (file.go:1364)
+* `readDictionaryAPI` `FilePages.ReadDictionary()` (file.go:1159-1166) → `readDictionary` → `readPage`
 
-SPEC side: `writeHeader` (what a writer of this library stores, writer.go:2457-2459, 2570-2572 and
+SPEC side: `writeHeader` (what a writer of this library stores, writer.go:2497-2499, 2610-2612 and
 the thrift rule for `optional` i32), `Burst` (the corruption the property quantifies over).
 
 Not modelled: decoding/decompression of the loaded body (it happens after the loader returned and
@@ -66,19 +69,19 @@ def writeHeader (kind : PageKind) (body : Bytes) (dictEncoded : Bool := false) :
 def readFull (n : Nat) (stream : Bytes) : Except Err Bytes :=
   if stream.length < n then .error .io else .ok (stream.take n)
 
-/-- Which implementation is mirrored. `dictLoaderVerifies = false` is the unchanged code; `true` is
-    the proposed repair of F4 (let `readDictionary` load the body through `readPage`). Tied to the
-    source by `Props/FactsCheckC13.lean`. -/
+/-- Which implementation is mirrored: does `readDictionary` load the dictionary body through
+    `readPage` (`true`, the code since 5000be7) or with a bare `io.ReadFull` (`false`, the code before
+    the repair of F4). `current` is tied to the source by `Props/FactsCheckC13.lean`. -/
 structure Impl where
   dictLoaderVerifies : Bool
   deriving DecidableEq, Repr
 
-/-- MIRROR of the tree under verification (unchanged library) -/
-def current : Impl := { dictLoaderVerifies := false }
-/-- the proposed repair of F4 -/
-def repairedF4 : Impl := { dictLoaderVerifies := true }
+/-- MIRROR of the tree under verification (5000be7 and later) -/
+def current : Impl := { dictLoaderVerifies := true }
+/-- MIRROR of the code as it was before the repair of F4 (regression facts only) -/
+def beforeFix : Impl := { dictLoaderVerifies := false }
 
-/-- MIRROR `FilePages.readPage` file.go:1447-1479 -/
+/-- MIRROR `FilePages.readPage` file.go:1448-1480 -/
 def readPage (h : Header) (stream : Bytes) : Except Err Bytes :=
   match readFull h.compressedSize stream with
   | .error e => .error e
@@ -89,10 +92,10 @@ def readPage (h : Header) (stream : Bytes) : Except Err Bytes :=
       else .ok page
     else .ok page
 
-/-- MIRROR the body load of `FilePages.readDictionary`, unencrypted branch, file.go:1354-1366 -/
+/-- MIRROR the body load of `FilePages.readDictionary`, unencrypted branch, file.go:1354-1367 -/
 def readDictionaryBody (impl : Impl) (h : Header) (stream : Bytes) : Except Err Bytes :=
-  if impl.dictLoaderVerifies then readPage h stream
-  else readFull h.compressedSize stream     -- io.ReadFull(rbuf, page.data.Slice()); no comparison
+  if impl.dictLoaderVerifies then readPage h stream   -- page, err = f.readPage(header, rbuf)
+  else readFull h.compressedSize stream     -- before 5000be7: io.ReadFull(rbuf, page.data.Slice()); no comparison
 
 inductive Path where
   | sequential | afterSeek | lazyDictionary | readDictionaryAPI
@@ -100,10 +103,15 @@ inductive Path where
 
 def Path.all : List Path := [.sequential, .afterSeek, .lazyDictionary, .readDictionaryAPI]
 
-/-- the Go function that fills the page buffer on this path (name as extracted by factgen) -/
-def Path.loader : Path → String
-  | .sequential | .afterSeek => "FilePages.readPage"
+/-- the Go function of file.go through which this path asks for the page body … -/
+def Path.entry : Path → String
+  | .sequential | .afterSeek => "FilePages.ReadPage"
   | .lazyDictionary | .readDictionaryAPI => "FilePages.readDictionary"
+
+/-- … and the function that fills the page buffer from the reader for it (names as extracted by
+    factgen: `pageLoaderCalls` lists the (entry, loader) call pairs, `pageLoaders` the loaders) -/
+def Path.loader : Path → String
+  | _ => "FilePages.readPage"
 
 /-- does the path compare checksums (when `header.CRC != 0`) -/
 def verifies (impl : Impl) : Path → Bool
@@ -146,7 +154,7 @@ def loadPages (impl : Impl) : List Stored → Except Err (List Page)
       | .error e => .error e
       | .ok pgs => .ok (pg :: pgs)
 
-/-- MIRROR `ReadPage` called until EOF on a fresh `FilePages` (file.go:1193-1320): the dictionary
+/-- MIRROR `ReadPage` called until EOF on a fresh `FilePages` (file.go:1193-1321): the dictionary
     page is met first and goes through `readPage` like every other page. Result: dictionary body
     (if any) and the data page bodies. -/
 def readAll (impl : Impl) (c : Chunk) : Except Err (Option Page × List Page) :=
@@ -160,7 +168,7 @@ def readAll (impl : Impl) (c : Chunk) : Except Err (Option Page × List Page) :=
 /-- MIRROR `SeekToRow(first row of data page k)` on a fresh `FilePages` of a chunk that has an offset
     index, then one `ReadPage`: page `k` is loaded by `readPage` (file.go:1238), and when it is
     dictionary-encoded the dictionary is fetched by `readDictionary` because `f.dictionary == nil`
-    (file.go:1400-1406). Result: the dictionary body used (if any) and the page body. -/
+    (file.go:1401-1407). Result: the dictionary body used (if any) and the page body. -/
 def readAt (impl : Impl) (c : Chunk) (k : Nat) : Except Err (Option Page × Page) :=
   match c.pages[k]? with
   | none => .error .io                                  -- ErrSeekOutOfRange / EOF: no page
@@ -207,6 +215,17 @@ theorem readPage_detects (h : Header) (body err : Bytes) (hsize : h.compressedSi
   simp only [bne_iff_ne, ne_eq, h0, not_false_eq_true, if_true]
   rw [hcrc]
   simp [Ne.symm hne]
+
+/-- on every path that verifies, of either implementation -/
+theorem load_detects_of_verifies (impl : Impl) (p : Path) (hv : verifies impl p = true) (h : Header)
+    (body err : Bytes) (hsize : h.compressedSize = body.length) (hlen : err.length = body.length)
+    (h0 : h.crc ≠ 0#32) (hcrc : h.crc = crc32 body) (hb : Burst err) :
+    load impl p h (xorBytes body err) = .error .corrupted := by
+  have hd := readPage_detects h body err hsize hlen h0 hcrc hb
+  unfold load
+  cases p <;> simp_all [verifies, readDictionaryBody]
+
+theorem verifies_current (p : Path) : verifies current p = true := by cases p <;> rfl
 
 theorem readPage_intact (h : Header) (body : Bytes) (hsize : h.compressedSize = body.length)
     (hcrc : h.crc = crc32 body) : readPage h body = .ok body := by
